@@ -210,6 +210,11 @@ def _fix_undefined_variables(source: str, variables: Collection[str]) -> str:
         # that opens a decorator
         start = core.get_charnos(node, source).start
         lineno = len(re.findall(r"\r\n|\r|\n", source[:start]))
+        line_start = max(source.rfind("\n", 0, start), source.rfind("\r", 0, start)) + 1
+        if source[line_start:start].strip():
+            # It shares its line with the end of the statement before it, there is no line to
+            # put the imports on
+            return source
         break
 
     newline = "\r\n" if lines and lines[0].endswith("\r\n") else "\n"
